@@ -168,3 +168,173 @@ Print Assumptions C17_clear_translate.
 Print Assumptions C17_clear_text_extra.
 Print Assumptions C17_clear_total.
 Print Assumptions C17_ansi_total.
+
+(* ================================================================================================
+   The tie by TRANSLATION (tools/gotrans/c17.go -> Gen/C17gen.v, regenerated from /repo on every run).
+   Proofs: Proofs/C17_tie.v (tables), Proofs/C17_skel.v (skeletons); recorded copy Proofs/C17_expected.v.
+   ================================================================================================ *)
+From GoMC Require Import Gen.C17gen Model.C17_syntax Proofs.C17_expected Proofs.C17_tie Proofs.C17_skel.
+
+(* ---- what the translator renders from package chat is what was recorded when the model was written:
+   8 struct tag tables (ordered rows: Go field, json key, json omitempty, nbt key, nbt omitempty, Go type), the
+   defined types, the fmtCode / colors literals, the fmtPat pattern, 18 function bodies with their signatures *)
+Theorem C17_source_is_recorded :
+  (chat_Message_fields, chat_translateMsg_fields, chat_ClickEvent_fields, chat_HoverEvent_fields, chat_HoverSub_fields,
+   chat_Decoration_Style_fields, chat_Decoration_fields, chat_Type_fields, chat_type_defs)
+  = (expected_Message_fields, expected_translateMsg_fields, expected_ClickEvent_fields, expected_HoverEvent_fields,
+     expected_HoverSub_fields, expected_Decoration_Style_fields, expected_Decoration_fields, expected_Type_fields,
+     expected_type_defs)
+  /\ (chat_fmtCode, chat_colors, chat_fmtPat) = (expected_fmtCode, expected_colors, expected_fmtPat)
+  /\ [chat_Text; chat_Message_ClearString; chat_Message_String; chat_TransCtrlSeq; chat_Message_ReadFrom;
+      chat_Message_WriteTo; chat_Message_TagType; chat_Message_MarshalNBT; chat_nbtArgs; chat_Message_UnmarshalNBT;
+      chat_TranslateArgs_UnmarshalNBT; chat_JsonMessage_ReadFrom; chat_JsonMessage_WriteTo; chat_Message_MarshalJSON;
+      chat_Message_UnmarshalJSON; chat_TranslateArgs_UnmarshalJSON; chat_Type_ReadFrom; chat_Type_WriteTo]
+     = [expected_Text; expected_Message_ClearString; expected_Message_String; expected_TransCtrlSeq;
+        expected_Message_ReadFrom; expected_Message_WriteTo; expected_Message_TagType; expected_Message_MarshalNBT;
+        expected_nbtArgs; expected_Message_UnmarshalNBT; expected_TranslateArgs_UnmarshalNBT;
+        expected_JsonMessage_ReadFrom; expected_JsonMessage_WriteTo; expected_Message_MarshalJSON;
+        expected_Message_UnmarshalJSON; expected_TranslateArgs_UnmarshalJSON; expected_Type_ReadFrom;
+        expected_Type_WriteTo].
+Proof. exact all_skel_ok. Qed.
+
+(* ---- the rendering tables of the model ARE the translated literals (source order); every code of fmtCode
+   lies in the character class of the translated fmtPat, whose matches are the section sign and one byte *)
+Theorem C17_tables_translated :
+  fmt_code = chat_fmtCode /\ colors = chat_colors
+  /\ forallb (fun kv => class_matches chat_fmtPat (fst kv)) fmt_code = true
+  /\ firstn 7 chat_fmtPat = [40; 63; 105; 41; sect1; sect2; 91].
+Proof. exact tables_translated. Qed.
+
+(* ---- the struct tag tables: the model's field list of EVERY component is the table-driven encoding of the
+   translated rows, in row order (nbt key, nbt omitempty, Go type of each row; Message for rawMsgStruct,
+   translateMsg when Translate is set), after nbtArgs normalised the copy's argument list; likewise the JSON
+   form with the json key / json omitempty of the same rows *)
+Theorem C17_struct_table_nbt : forall (ft : bool) (m : msg),
+  nbt_rows self_fields chat_ClickEvent_fields chat_HoverEvent_fields
+    (if ft then chat_Message_fields else chat_translateMsg_fields)
+    (msg_field (set_with (nbt_args (m_with m)) m))
+  = Some (fields_of ft m).
+Proof. exact fields_of_is_table. Qed.
+Theorem C17_struct_table_json : forall m,
+  option_map JObj
+    (json_rows to_json chat_ClickEvent_fields chat_HoverEvent_fields
+       (if is_nil (m_translate m) then chat_Message_fields else chat_translateMsg_fields) (msg_field m))
+  = Some (to_json m).
+Proof. exact to_json_is_table. Qed.
+Theorem C17_struct_keys :
+  map (fun r => bs (f_nbt r)) chat_Message_fields
+  = [k_text; k_bold; k_italic; k_underlined; k_strike; k_obf; k_font; k_color; k_insertion; k_click; k_hover;
+     k_translate; k_with; k_extra]
+  /\ map (fun r => bs (f_nbt r)) chat_ClickEvent_fields = [k_action; k_value]
+  /\ map (fun r => bs (f_nbt r)) chat_HoverEvent_fields = [k_action; k_contents; k_value].
+Proof. exact nbt_keys_translated. Qed.
+
+(* ---- interpretation of the translated bodies: the model's functions ARE what the skeletons say *)
+(* Message.UnmarshalJSON: dispatch on the first byte (double quote: string, brace: object, bracket: array, anything
+   else: an error) *)
+Theorem C17_json_dispatch_skeleton : forall m0 j c, In c (first_bytes j) ->
+  of_json_into m0 j = apply_jtarget (jd_run (snd chat_Message_UnmarshalJSON) c) m0 j.
+Proof. exact json_dispatch_is_skel. Qed.
+(* Message.UnmarshalNBT: dispatch on the tag type (TagString, TagCompound, TagList, anything else an error) *)
+Theorem C17_nbt_dispatch_skeleton : forall m0 t, head_ok t ->
+  of_tag_into m0 t = apply_ntarget (nd_run (snd chat_Message_UnmarshalNBT) (tag_id t)) m0 t.
+Proof. exact nbt_dispatch_is_skel. Qed.
+(* TranslateArgs.UnmarshalNBT / UnmarshalJSON: what the "with" key appends *)
+Theorem C17_with_decode_skeleton : forall rec m v r, head_ok v ->
+  msg_fields rec m ((k_with, v) :: r)
+  = match apply_akind rec (ad_run (snd chat_TranslateArgs_UnmarshalNBT) (tag_id v)) v with
+    | Some l => msg_fields rec (set_with (m_with m ++ l) m) r
+    | None => None
+    end.
+Proof. exact with_decode_is_skel. Qed.
+Theorem C17_with_json_skeleton : forall rec m v r,
+  jmsg_fields rec m ((k_with, v) :: r)
+  = match apply_jargs (aj_run (snd chat_TranslateArgs_UnmarshalJSON)) rec v with
+    | Some l => jmsg_fields rec (set_with (m_with m ++ l) m) r
+    | None => None
+    end.
+Proof. exact with_json_is_skel. Qed.
+(* nbtArgs: the loop, its type switch, the counter and the final test compute the model's normalisation *)
+Theorem C17_nbt_args_skeleton : forall w, na_run (snd chat_nbtArgs) w = Some (nbt_args w).
+Proof. exact nbt_args_is_skel. Qed.
+(* Message.MarshalNBT: normalise the copy's arguments, choose the struct by Translate, encode its rows *)
+Theorem C17_marshal_nbt_skeleton : forall m,
+  mn_run (snd chat_Message_MarshalNBT) m None = Some (fields_of (is_nil (m_translate m)) m).
+Proof. exact marshal_nbt_is_skel. Qed.
+Theorem C17_marshal_json_skeleton : forall m, mj_run (snd chat_Message_MarshalJSON) m = Some (to_json m).
+Proof. exact marshal_json_is_skel. Qed.
+(* Message.WriteTo = pk.NBT(&m): the TagType byte, then the MarshalNBT payload *)
+Theorem C17_wire_skeleton : forall m, wire_run m = Some (wire m).
+Proof. exact wire_is_skel. Qed.
+(* Type.WriteTo / ReadFrom: the order of the four fields, the flag, and the byte counts every return reports *)
+Theorem C17_type_write_skeleton : forall id sender target,
+  tw_run id sender target 20 (snd chat_Type_WriteTo) [] [] = Some (type_write id sender target).
+Proof. exact type_write_is_skel. Qed.
+Theorem C17_type_read_skeleton : forall s,
+  tr_result (tr_run 20 (snd chat_Type_ReadFrom) []
+               {| r_in := s; r_id := None; r_sender := None; r_flag := None; r_target := None |})
+  = type_read s.
+Proof. exact type_read_is_skel. Qed.
+(* TransCtrlSeq's callback: str[2] looked up in fmtCode; ANSI sequence / nothing / the match itself *)
+Theorem C17_trans_ctrl_skeleton : forall ansi e r2,
+  match cb_run (snd chat_TransCtrlSeq) ansi e with
+  | Some (rep, chg) =>
+      (code_lookup e fmt_code <> None ->
+         trans_ctrl ansi (sect1 :: sect2 :: e :: r2)
+         = (rep ++ fst (trans_ctrl ansi r2), chg || snd (trans_ctrl ansi r2))%bool)
+      /\ (code_lookup e fmt_code = None -> rep = [sect1; sect2; e] /\ chg = false)
+  | None => False
+  end.
+Proof. exact trans_ctrl_is_skel. Qed.
+(* Message.ClearString: the writes to the builder in statement order: text, translate with its arguments
+   (each rendered by the clause of its dynamic type), extra *)
+Theorem C17_clear_string_skeleton : forall tbl m,
+  option_map rconcat
+    (cs_run tbl (clear_string tbl) (snd chat_Message_ClearString) m {| c_text := None; c_pieces := [] |})
+  = Some (clear_string tbl m).
+Proof. exact clear_string_is_skel. Qed.
+
+Print Assumptions C17_source_is_recorded.
+Print Assumptions C17_tables_translated.
+Print Assumptions C17_struct_table_nbt.
+Print Assumptions C17_struct_table_json.
+Print Assumptions C17_struct_keys.
+Print Assumptions C17_json_dispatch_skeleton.
+Print Assumptions C17_nbt_dispatch_skeleton.
+Print Assumptions C17_with_decode_skeleton.
+Print Assumptions C17_with_json_skeleton.
+Print Assumptions C17_nbt_args_skeleton.
+Print Assumptions C17_marshal_nbt_skeleton.
+Print Assumptions C17_marshal_json_skeleton.
+Print Assumptions C17_wire_skeleton.
+Print Assumptions C17_type_write_skeleton.
+Print Assumptions C17_type_read_skeleton.
+Print Assumptions C17_trans_ctrl_skeleton.
+Print Assumptions C17_clear_string_skeleton.
+
+(* ---- explicit argument indexes (%[n]s: what the library's language files carry where vanilla has %1$s):
+   the named argument is substituted, a following %s continues behind it; left-over arguments are reported
+   only when no index was used.  Guards: literals free of %, every named argument exists, one-digit indexes. *)
+From GoMC Require Import Proofs.C17_fmt.
+Theorem C17_sprintf_index : forall ps (args : list farg), lit_clean2 ps = true ->
+  refs_ok ps (length args) 0 = true ->
+  sprintf (render_fmt2 ps) args
+  = ROk (subst2 ps (map snd args) 0 ++ end_tail args (final_k ps 0) (uses_idx ps)).
+Proof. exact sprintf_index0. Qed.
+(* an index outside the argument list, %d of a string, a lone % at the end are reported in the output *)
+Theorem C17_sprintf_reports :
+  sprintf [37;91;51;93;115;33] [(false, [97])] = ROk ([37;33;115;40;66;65;68;73;78;68;69;88;41] ++ [33])
+  /\ sprintf [37;100] [(false, [97])] = ROk ([37;33;100;40;115;116;114;105;110;103;61;97;41])
+  /\ sprintf [104;105;32;37] [] = ROk ([104;105;32] ++ [37;33;40;78;79;86;69;82;66;41]).
+Proof. exact sprintf_reports. Qed.
+(* "%[2]s hit %[1]s" with two arguments: the second, then the first, nothing reported as left over *)
+Example C17_ex_index :
+  lit_clean2 [QIdx 1; QLit [32;104;105;116;32]; QIdx 0] = true
+  /\ refs_ok [QIdx 1; QLit [32;104;105;116;32]; QIdx 0] 2 0 = true
+  /\ render_fmt2 [QIdx 1; QLit [32;104;105;116;32]; QIdx 0] = [37;91;50;93;115;32;104;105;116;32;37;91;49;93;115]
+  /\ sprintf [37;91;50;93;115;32;104;105;116;32;37;91;49;93;115] [(false, [97]); (true, [98])]
+     = ROk [98;32;104;105;116;32;97].
+Proof. repeat split; reflexivity. Qed.
+
+Print Assumptions C17_sprintf_index.
+Print Assumptions C17_sprintf_reports.
